@@ -189,3 +189,52 @@ list_of("Perm.cyclic_peaks_list", "Perm.cyclic_peaks")
 list_of("Perm.cyclic_valleys_list", "Perm.cyclic_valleys")
 list_of("Perm.double_excedance_list", "Perm.double_excedance")
 list_of("Perm.double_drops_list", "Perm.double_drops")
+
+
+# ------------------------------------------------ records (left-to-right minima / maxima)
+def record_contract(qual, better, start):
+    """for idx, val in enumerate(self): if val <better> ext: ext = val; yield idx"""
+
+    def is_record(c, p, i):
+        return c.forall(0, i, lambda j: better(p[i], p[j]))
+
+    @contract(qual, params={"self": "Perm"}, returns="gen", props=P)
+    class _K:
+        def requires(c, self):
+            return c.is_perm(self)
+
+        def ensures(c, self, result):
+            return c.seq_eq(result, c.listing(qual, 0, c.len(self), lambda i: is_record(c, self, i)))
+
+        @staticmethod
+        def _inv(c, st, k):
+            p = st.self
+            n = c.len(p)
+            L = c.listing(qual, 0, n, lambda i: is_record(c, p, i))
+            ext = st.min_val if hasattr_ns(st, "min_val") else st.max_val
+            return c.and_(
+                c.len(st.__out__) == c.count_upto(L, k),
+                c.forall(0, c.len(st.__out__), lambda j: st.__out__[j] == L[j]),
+                c.forall(0, k, lambda j: c.or_(better(ext, p[j]), ext == p[j])),
+                c.implies(k == 0, ext == start(c, p)),
+                c.implies(k > 0, c.exists(0, k, lambda j: p[j] == ext)),
+            )
+
+        invariants = {0: lambda c, st, k: _K._inv(c, st, k)}
+        modifies = ()
+
+    return _K
+
+
+def hasattr_ns(st, name):
+    try:
+        getattr(st, name)
+        return True
+    except Exception:  # noqa: BLE001
+        return False
+
+
+record_contract("Perm.ltrmin", lambda a, b: a < b, lambda c, p: c.len(p))
+record_contract("Perm.ltrmax", lambda a, b: a > b, lambda c, p: c.int(-1))
+count_of("Perm.count_ltrmin", "Perm.ltrmin")
+count_of("Perm.count_ltrmax", "Perm.ltrmax")
